@@ -18,10 +18,14 @@ Beh(s, o) == [shape |-> s, opts |-> o]
 Thorough == Tier = "thorough"
 
 (* ---- sweep "attr": one attribute at a time, value length around 0/1/255/256/4095 ---- *)
+(* RFC 7606 7.8 / 7.10 / 7.14 (and RFC 8092 for LARGE_COMMUNITY): a COMMUNITIES, CLUSTER_LIST, EXTENDED
+   COMMUNITIES or LARGE_COMMUNITY attribute of length 0 is malformed, so n = 0 is NOT a structurally valid
+   message and is not in the C04 domain (the decoder rejects it since 558dfcd).  A zero length still
+   reaches the parsers as a C05 mutation (attrlen := 0), where only safe handling is demanded. *)
 CountClasses(t) ==
-  CASE t = "communities" -> {0, 1, 63, 64, 1000}          \* 4n   : 252 | 256
+  CASE t = "communities" -> {1, 63, 64, 1000}             \* 4n   : 252 | 256
     [] t = "clusterlist" -> {1, 63, 64}
-    [] t = "extcomm"     -> {0, 1, 31, 32, 500}            \* 8n   : 248 | 256
+    [] t = "extcomm"     -> {1, 31, 32, 500}               \* 8n   : 248 | 256
     [] t = "large"       -> {1, 21, 22, 330}               \* 12n  : 252 | 264
     [] t = "ip6extcomm"  -> {1, 12, 13}                    \* 20n  : 240 | 260
     [] t = "unknown"     -> {0, 1, 255, 256, 4000}
